@@ -161,6 +161,16 @@ class Check(PropertyCheck):
             if line == "mreset" and out == "raise" and not scenario.meta.get("may_refuse") and not scenario.meta.get("recirc") \
                     and not scenario.meta.get("multi_machine"):
                 res.append(("reset-raised", "MultiJobShopGraphEnv.reset() raised: no new episode although the generator can generate"))
+            # every episode is like a first one: what reset() and the steps return is judged as the environment contract judges a
+            # first episode (padding, mask, edge list, done) - nothing of an earlier, larger episode shows
+            import C18
+            if "c18" not in ctx:
+                ctx["c18"] = (C18.Check(), {})
+            chk, sub = ctx["c18"]
+            for kind_, msg in chk.oracle(impl, scenario, index, line, out, sub):
+                if kind_ == "multi-env-space-undersized":
+                    continue        # (the recorded open finding of C18: reported there, under its own key)
+                res.append(("episode-like-first:" + kind_, "a later episode of the multi-instance environment: " + msg))
             return res
         if scenario.meta.get("kind") == "env":
             from impl_ext import ImplEnv
